@@ -71,7 +71,7 @@ impl Minimums {
 impl<K, V> RecursiveContext<K, V>
 where
     K: Hash + Eq + Debug + Clone,
-    V: Debug + Clone,
+    V: Debug + Clone + PartialEq,
 {
     pub fn new(overflow_depth: usize, max_size: usize, cache: Option<Cache<K, V>>) -> Self {
         RecursiveContext {
@@ -241,6 +241,13 @@ where
                 std::mem::replace(&mut self.search_graph[dfn].solution, current_answer);
 
             if solver_stuff.reached_fixed_point(&old_answer, &self.search_graph[dfn].solution) {
+                if old_answer != self.search_graph[dfn].solution {
+                    // The iteration stops although the answer still changed (it
+                    // has turned ambiguous). What the subgoals computed from the
+                    // old answer does not hold for the new one, so it must not
+                    // be promoted to the cache together with this goal.
+                    self.search_graph.rollback_to(dfn + 1);
+                }
                 return *minimums;
             }
 
